@@ -19,6 +19,8 @@ import MajoranaVerif.Model.Mvp61
 import MajoranaVerif.Model.Mvp62
 import MajoranaVerif.Model.Mvp63
 import MajoranaVerif.Model.Mvp70
+import MajoranaVerif.Model.Mvp71
+import MajoranaVerif.Model.Mvp80
 
 namespace Driver.Run
 
@@ -71,7 +73,7 @@ initialize m60Pars : List Nat ← do
 
 /-- the cycle-accurate model of MVP-6.0 (`Model.Mvp60`) with eu = wu = 1..4, followed by ` r60=<a><b>`: membership of the program
 in the classes `Model.Mvp60.RegOnly` (a), `Model.Mvp60.StraightLine` (b) and `Model.Mvp60.StraightLineRet` (c) of the
-correctness statements (packages R60, R60b, R60c; ` r60=<a><b><c><d><e>`, d = `Model.Mvp60.BranchOnly`, e = `Model.Mvp60.RegOnlyWf`):
+correctness statements (packages R60, R60b, R60c; ` r60=<a><b><c><d><e><f><g>`, d = `Model.Mvp60.BranchOnly`, e = `Model.Mvp60.RegOnlyWf`, f = `Model.Mvp60.StraightLineLd`, g = `Model.Mvp60.StraightLineLdRet`):
 ` m60pK=<halt>,<cycles>,<same|DIFF>,<ticks>,<digest of final registers and memory>` -/
 def m60Suffix (app : Model.Seq.App) (ctx : Model.Context) (spec : Spec.Result) : String :=
   let fuel := 32 * Gen.Latency.MemoryAccess.toNat * (spec.steps + 64)
@@ -82,7 +84,7 @@ def m60Suffix (app : Model.Seq.App) (ctx : Model.Context) (spec : Spec.Result) :
     let cyc := match r.halt with | some .err => 0 | _ => r.final.cycles
     let dig := fnvStr (",".intercalate (fr.map showI32) ++ ";" ++ hex16 (fnv64 r.final.ctx.Memory.toArray))
     s!" m60p{k}={showHalt r.halt},{cyc},{if same then "same" else "DIFF"},{r.ticks},{hex16 dig}"
-  "".intercalate (m60Pars.map one) ++ s!" r60={if Model.Mvp60.RegOnly app then 1 else 0}{if Model.Mvp60.StraightLine app then 1 else 0}{if Model.Mvp60.StraightLineRet app then 1 else 0}{if Model.Mvp60.BranchOnly app then 1 else 0}{if Model.Mvp60.RegOnlyWf app then 1 else 0}"
+  "".intercalate (m60Pars.map one) ++ s!" r60={if Model.Mvp60.RegOnly app then 1 else 0}{if Model.Mvp60.StraightLine app then 1 else 0}{if Model.Mvp60.StraightLineRet app then 1 else 0}{if Model.Mvp60.BranchOnly app then 1 else 0}{if Model.Mvp60.RegOnlyWf app then 1 else 0}{if Model.Mvp60.StraightLineLd app then 1 else 0}{if Model.Mvp60.StraightLineLdRet app then 1 else 0}"
 
 /-- which parallelisms of the MVP-6.1 model are evaluated: K = 2 in the quick tier (K = 1, 2 cost +15 … +30 % of the quick
 checks' wall time, the model has no idle-skip), 1..4 under `VERIF_TIER=thorough`; `VERIF_M61=all|none` overrides -/
@@ -167,6 +169,41 @@ def m70Suffix (app : Model.Seq.App) (ctx : Model.Context) (spec : Spec.Result) :
     s!" m70p{k}={h},{cyc},{if same then "same" else "DIFF"},{r.ticks},{hex16 dig}"
   "".intercalate (m70Pars.map one)
 
+/-- which parallelisms of the MVP-7.1 model are evaluated (as `m70Pars`: thorough tier only; `VERIF_M71=all|p1|p2|none`) -/
+initialize m71Pars : List Nat ← do
+  let tier ← IO.getEnv "VERIF_TIER"
+  let opt ← IO.getEnv "VERIF_M71"
+  return if opt == some "none" then [] else if opt == some "p1" then [1] else if opt == some "p2" then [1, 2]
+    else if tier == some "thorough" || opt == some "all" then [1, 2, 3, 4] else []
+
+/-- a model on `Model.Mvp70.State` with K cores, in the format of `m70Suffix`: ` <name>pK=…` -/
+def m7xSuffix (name : String) (pars : List Nat) (run : Nat → Nat → Model.Mvp70.Result) (spec : Spec.Result) : String :=
+  let fuel := 32 * Gen.Latency.MemoryAccess.toNat * (spec.steps + 64)
+  let one (k : Nat) : String :=
+    let r := run k fuel
+    let fr := (List.range 32).map fun j => GoInt.GoMap.get1 r.final.base.ctx.Registers j
+    let same := fr == spec.final.regs.toList && r.final.base.ctx.Memory == spec.final.mem.toList
+    let cyc := match r.halt with | some .err => 0 | _ => r.final.base.cycles
+    let dig := fnvStr (",".intercalate (fr.map showI32) ++ ";" ++ hex16 (fnv64 r.final.base.ctx.Memory.toArray))
+    let h := if Model.Mvp70.isMapOrder r then "maporder" else showHalt r.halt
+    s!" {name}p{k}={h},{cyc},{if same then "same" else "DIFF"},{r.ticks},{hex16 dig}"
+  "".intercalate (pars.map one)
+
+/-- the cycle-accurate model of MVP-7.1 (`Model.Mvp71`): ` m71pK=…` -/
+def m71Suffix (app : Model.Seq.App) (ctx : Model.Context) (spec : Spec.Result) : String :=
+  m7xSuffix "m71" m71Pars (fun k fuel => Model.Mvp71.run app ctx k fuel) spec
+
+/-- which parallelisms of the MVP-8.0 model are evaluated (thorough tier only; `VERIF_M80=all|p1|p2|none`) -/
+initialize m80Pars : List Nat ← do
+  let tier ← IO.getEnv "VERIF_TIER"
+  let opt ← IO.getEnv "VERIF_M80"
+  return if opt == some "none" then [] else if opt == some "p1" then [1] else if opt == some "p2" then [1, 2]
+    else if tier == some "thorough" || opt == some "all" then [1, 2, 3, 4] else []
+
+/-- the cycle-accurate model of MVP-8.0 (`Model.Mvp80`): ` m80pK=…` -/
+def m80Suffix (app : Model.Seq.App) (ctx : Model.Context) (spec : Spec.Result) : String :=
+  m7xSuffix "m80" m80Pars (fun k fuel => Model.Mvp80.run app ctx k fuel) spec
+
 /-- the cycle-accurate models of MVP-1 and MVP-2 on the same case: how the run ends, the cycle count,
 and whether the final registers and memory equal the specification's (`same`/`DIFF`) -/
 def seqModels (progBytes : List UInt8) (regs : Array (BitVec 32)) (mem : Array (BitVec 8)) (fuel : Nat)
@@ -193,7 +230,7 @@ def seqModels (progBytes : List UInt8) (regs : Array (BitVec 32)) (mem : Array (
       let same := fr == spec.final.regs.toList && r.final.ctx.Memory == spec.final.mem.toList
       let cyc := match r.halt with | some .err => 0 | _ => r.final.cycles
       s!"{showHalt r.halt},{cyc},{r.final.executed},{if same then "same" else "DIFF"}"
-    s!"m1={one (Model.Seq.runMvp1 app ⟨ctx, 0⟩ fuel)} m2={one (Model.Seq.runMvp2 app ⟨ctx, 0⟩ fuel)} m3={one (Model.Mvp3.runMvp3 app ⟨ctx, 0⟩ fuel).toSeq} h3={if Model.Mvp3.wfAccesses app ⟨ctx, 0⟩ fuel then 1 else 0} m4={one4 (Model.Mvp4.run app ctx (32 * Gen.Latency.MemoryAccess.toNat * (spec.steps + 64)))} m5={one5 (Model.Mvp5.run app ctx (32 * Gen.Latency.MemoryAccess.toNat * (spec.steps + 64)))}{m60Suffix app ctx spec}{m61Suffix app ctx spec}{m62Suffix app ctx spec}{m63Suffix app ctx spec}{m70Suffix app ctx spec}"
+    s!"m1={one (Model.Seq.runMvp1 app ⟨ctx, 0⟩ fuel)} m2={one (Model.Seq.runMvp2 app ⟨ctx, 0⟩ fuel)} m3={one (Model.Mvp3.runMvp3 app ⟨ctx, 0⟩ fuel).toSeq} h3={if Model.Mvp3.wfAccesses app ⟨ctx, 0⟩ fuel then 1 else 0} m4={one4 (Model.Mvp4.run app ctx (32 * Gen.Latency.MemoryAccess.toNat * (spec.steps + 64)))} m5={one5 (Model.Mvp5.run app ctx (32 * Gen.Latency.MemoryAccess.toNat * (spec.steps + 64)))}{m60Suffix app ctx spec}{m61Suffix app ctx spec}{m62Suffix app ctx spec}{m63Suffix app ctx spec}{m70Suffix app ctx spec}{m71Suffix app ctx spec}{m80Suffix app ctx spec}"
 
 /-- `run id ; family=.. fuel=N memsize=M ; regs=r:v,.. ; mem=<hex> ; prog=<hex>` -/
 def run (line : String) : String :=
